@@ -84,12 +84,24 @@ impl Obj for PY {
     }
 }
 
+/// Time axis of a history: integer multiples of a UNIT of 1 day or 1 minute since 1970-01-01 (so that nodes and
+/// queries may carry a time of day while every logged coordinate stays a 32-bit integer).
+static UNIT: std::sync::atomic::AtomicI64 = std::sync::atomic::AtomicI64::new(1);
+fn unit() -> i64 {
+    UNIT.load(std::sync::atomic::Ordering::Relaxed)
+}
+fn tdn(t: i64) -> NaiveDateTime {
+    dn(0) + chrono::Duration::seconds(t * (86400 / unit()))
+}
+fn tnd(d: &NaiveDateTime) -> i64 {
+    (*d - dn(0)).num_seconds() / (86400 / unit())
+}
 fn state_json(o: &dyn Obj, queries: &[i64]) -> Value {
-    let nodes: Vec<Value> = o.nodes().iter().map(|(d, v)| json!({"d": nd(d), "v": number_json(v)})).collect();
+    let nodes: Vec<Value> = o.nodes().iter().map(|(d, v)| json!({"d": tnd(d), "v": number_json(v)})).collect();
     let mut q = vec![];
     for &x in queries {
-        let date = dn(x);
-        let idx = guard(|| o.node_index(x * 86400));
+        let date = tdn(x);
+        let idx = guard(|| o.node_index(x * (86400 / unit())));
         let val = guard(|| o.value(&date));
         let iv = guard(|| o.index_value(&date));
         q.push(json!({"x": x,
@@ -109,6 +121,7 @@ pub struct Spec {
     pub id: String,
     pub via: String, // "CurveDF" | "Curve"
     pub index_base: Option<f64>,
+    pub unit: i64, // 1 = days, 1440 = minutes
 }
 
 fn build(s: &Spec) -> Outcome<Result<Box<dyn Obj>, String>> {
@@ -120,7 +133,7 @@ fn build(s: &Spec) -> Outcome<Result<Box<dyn Obj>, String>> {
     let adv = s.ad;
     if s.via == "Curve" {
         guard(move || {
-            CurveH::new(s_nodes.iter().map(|(d, v)| (dn(*d), v.clone())).collect(), &rule, ad(adv), &id, Convention::Act365F, Modifier::ModF,
+            CurveH::new(s_nodes.iter().map(|(d, v)| (tdn(*d), v.clone())).collect(), &rule, ad(adv), &id, Convention::Act365F, Modifier::ModF,
                         CalType::NamedCal(NamedCal::try_new("all").unwrap()), ib)
                 .map(|c| Box::new(PY(c)) as Box<dyn Obj>)
         })
@@ -128,9 +141,9 @@ fn build(s: &Spec) -> Outcome<Result<Box<dyn Obj>, String>> {
         guard(move || {
             // CurveDF takes a homogeneous node map of the kind matching `ad`
             let nodes = match adv {
-                0 => Nodes::F64(IndexMap::from_iter(s_nodes.iter().map(|(d, v)| (dn(*d), number_re(v))))),
-                1 => Nodes::Dual(IndexMap::from_iter(s_nodes.iter().map(|(d, v)| (dn(*d), Dual::from(v.clone()))))),
-                _ => Nodes::Dual2(IndexMap::from_iter(s_nodes.iter().map(|(d, v)| (dn(*d), Dual2::from(v.clone()))))),
+                0 => Nodes::F64(IndexMap::from_iter(s_nodes.iter().map(|(d, v)| (tdn(*d), number_re(v))))),
+                1 => Nodes::Dual(IndexMap::from_iter(s_nodes.iter().map(|(d, v)| (tdn(*d), Dual::from(v.clone()))))),
+                _ => Nodes::Dual2(IndexMap::from_iter(s_nodes.iter().map(|(d, v)| (tdn(*d), Dual2::from(v.clone()))))),
             };
             macro_rules! mk {
                 ($i:expr) => {
@@ -165,13 +178,14 @@ fn queries_for(dates: &[i64], r: &mut Rng) -> Vec<i64> {
     q.push(ds[ds.len() - 1] + 400);
     q.push(ds[0] - 1 - r.range(1, 3000));
     q.push(ds[ds.len() - 1] + 1 + r.range(1, 3000));
-    q.retain(|x| *x > -20000 && *x < 100000);
+    q.retain(|x| *x > -20000 * unit() && *x < 100000 * unit());
     q.sort();
     q.dedup();
     q
 }
 
 pub fn perform(key: &str, s: &Spec, switches: &[i64], r: &mut Rng) -> Value {
+    UNIT.store(s.unit, std::sync::atomic::Ordering::Relaxed);
     // what is actually handed to the constructor: the Python-facing constructor takes the numbers as they are,
     // CurveDF takes a homogeneous map of the kind matching `ad` (conversion by the crate's own From impls)
     let given = |v: &Number| -> Number {
@@ -188,7 +202,7 @@ pub fn perform(key: &str, s: &Spec, switches: &[i64], r: &mut Rng) -> Value {
     let sup: Vec<Value> = s.nodes.iter().map(|(d, v)| json!({"d": d, "v": number_json(&given(v))})).collect();
     let mut ev = vec![];
     let q = queries_for(&s.nodes.iter().map(|(d, _)| *d).collect::<Vec<_>>(), r);
-    let head = json!({"op":"new","nodes":sup,"rule":s.rule,"ad":s.ad,"id":s.id,"via":s.via,
+    let head = json!({"op":"new","nodes":sup,"rule":s.rule,"ad":s.ad,"id":s.id,"via":s.via,"unit":s.unit,
                       "ib": s.index_base.map(fj).map(|x| json!([x])).unwrap_or(json!([]))});
     let mut obj = match build(s) {
         Outcome::Ok(Ok(o)) => o,
@@ -235,10 +249,13 @@ pub fn replay(cases: &str, seed: u64, out: &str) {
         let perm: Vec<i64> = c["perm"].as_array().unwrap().iter().map(|x| x.as_i64().unwrap()).collect();
         let n = perm.len();
         let rule = c["rule"].as_str().unwrap().to_string();
-        // sorted dates with irregular spacing: 1 day .. ~8 years
-        let mut dates = vec![10957 + r.range(0, 3000)];
+        // sorted dates with irregular spacing: 1 day .. ~8 years; every third case on a MINUTE axis (nodes and queries
+        // with a time of day: 1 minute .. ~2 years apart)
+        let unit: i64 = if i % 3 == 2 { 1440 } else { 1 };
+        let mut dates = vec![(10957 + r.range(0, 3000)) * unit + if unit > 1 { r.range(0, 1439) } else { 0 }];
         for _ in 1..n {
-            let step = *r.pick(&[1i64, 2, 7, 30, 91, 365, 366, 1461, 3000]);
+            let step = if unit == 1 { *r.pick(&[1i64, 2, 7, 30, 91, 365, 366, 1461, 3000]) }
+                       else { *r.pick(&[1i64, 2, 45, 720, 1439, 1440, 1441, 4000, 43200 + 611, 525600 + 7, 1051200 + 333]) };
             dates.push(dates[dates.len() - 1] + step);
         }
         let kinds: Vec<String> = c["kinds"].as_array().unwrap().iter().map(|x| x.as_str().unwrap().to_string()).collect();
@@ -260,7 +277,7 @@ pub fn replay(cases: &str, seed: u64, out: &str) {
         // supply order given by the permutation (1-based positions in date order)
         let nodes: Vec<(i64, Number)> = perm.iter().map(|p| (dates[*p as usize - 1], vals[*p as usize - 1].clone())).collect();
         let s = Spec { nodes, rule, ad: c["ad"].as_i64().unwrap(), id: "crv".to_string(), via: c["via"].as_str().unwrap().to_string(),
-                       index_base: if i % 2 == 0 { Some(100.0 + (i % 7) as f64) } else { None } };
+                       index_base: if i % 2 == 0 { Some(100.0 + (i % 7) as f64) } else { None }, unit };
         let sw: Vec<i64> = c["sw"].as_array().unwrap().iter().map(|x| x.as_i64().unwrap()).collect();
         let key = format!("curve/gen/{}", i);
         wd.enter(&key);
@@ -277,10 +294,11 @@ pub fn record(seed: u64, n: usize, out: &str) {
     let mut r = Rng::new(seed ^ 0xC12);
     for i in 0..n {
         let nn = 2 + r.below(if i % 5 == 0 { 29 } else { 7 }) as usize;
-        let mut dates = vec![r.range(3000, 25000)];
+        let unit: i64 = if r.chance(0.3) { 1440 } else { 1 };
+        let mut dates = vec![r.range(3000, 25000) * unit + if unit > 1 { r.range(0, 1439) } else { 0 }];
         for _ in 1..nn {
             let step = *r.pick(&[1i64, 1, 2, 5, 30, 91, 182, 365, 731, 1826, 3653, 10957]);
-            dates.push(dates[dates.len() - 1] + step);
+            dates.push(dates[dates.len() - 1] + if unit == 1 { step } else if r.coin() { step } else { step * 1440 + r.range(-700, 700) });
         }
         let rule = r.pick(&RULES).to_string();
         let via = if r.coin() { "Curve" } else { "CurveDF" }.to_string();
@@ -304,7 +322,7 @@ pub fn record(seed: u64, n: usize, out: &str) {
         }
         let nodes: Vec<(i64, Number)> = idx.iter().map(|k| (dates[*k], vals[*k].clone())).collect();
         let s = Spec { nodes, rule, ad: r.below(3) as i64, id: r.pick(&["crv", "usd_ois", "v"]).to_string(), via,
-                       index_base: if r.coin() { Some(r.uniform(50.0, 300.0)) } else { None } };
+                       index_base: if r.coin() { Some(r.uniform(50.0, 300.0)) } else { None }, unit };
         let nsw = r.below(6) as usize;
         let sw: Vec<i64> = (0..nsw).map(|_| r.below(3) as i64).collect();
         let key = format!("curve/rnd/{}", i);
